@@ -18,7 +18,11 @@ type GCheck struct {
 	BoolFalse bool // success is the callee returning false
 	// MatchCmp: the comparison is the check; returns (matches, successWhenTrue).
 	MatchCmp  func(c *Ctx, b *ssa.BinOp, env Env) (bool, bool)
+	// MatchOK: a comma-ok TypeAssert / Lookup whose ok == true edge is the success edge.
+	MatchOK   func(c *Ctx, v ssa.Value, env Env) bool
 	NoDescend bool
+	// Alts: disjunction — the success edge of any alternative suffices.
+	Alts []*GCheck
 }
 
 type gsite struct {
@@ -79,6 +83,17 @@ func (c *Ctx) calleeEnvV(cc *ssa.CallCommon, g *ssa.Function, env Env, callVal s
 // sites finds the check sites of chk in f (direct matches and calls to callees that ensure chk).
 func (c *Ctx) sites(f *ssa.Function, env Env, chk *GCheck, depth int) []gsite {
 	var out []gsite
+	if len(chk.Alts) > 0 {
+		for _, a := range chk.Alts {
+			out = append(out, c.sites(f, env, a, depth)...)
+		}
+		// calls to callees that ensure the whole disjunction
+		if !chk.NoDescend && depth < 8 {
+			probe := &GCheck{Name: chk.Name}
+			out = append(out, c.descendSites(f, env, chk, probe, depth)...)
+		}
+		return out
+	}
 	for _, b := range f.Blocks {
 		for _, in := range b.Instrs {
 			switch x := in.(type) {
@@ -128,6 +143,18 @@ func (c *Ctx) sites(f *ssa.Function, env Env, chk *GCheck, depth int) []gsite {
 				}
 				if m, onTrue := chk.MatchCmp(c, x, env); m {
 					out = append(out, gsite{cut: boolEdges(x, onTrue), instr: x})
+				}
+			case *ssa.TypeAssert:
+				if chk.MatchOK != nil && x.CommaOk && chk.MatchOK(c, x, env) {
+					if okv := extractOf2(x, 1); okv != nil {
+						out = append(out, gsite{cut: boolEdges(okv, !chk.BoolFalse), instr: x})
+					}
+				}
+			case *ssa.Lookup:
+				if chk.MatchOK != nil && x.CommaOk && chk.MatchOK(c, x, env) {
+					if okv := extractOf2(x, 1); okv != nil {
+						out = append(out, gsite{cut: boolEdges(okv, !chk.BoolFalse), instr: x})
+					}
 				}
 			}
 		}
@@ -513,28 +540,170 @@ func (c *Ctx) loopForall(f *ssa.Function, l *loop, cut map[edge]bool, what strin
 // anyOf: a disjunctive check — the success edge of any alternative suffices (e.g. "nonce empty" or
 // "nonce has the configured size").
 func anyOf(name string, alts ...*GCheck) *GCheck {
-	return &GCheck{Name: name,
-		MatchCall: func(c *Ctx, call *ssa.Call, env Env) bool {
-			for _, a := range alts {
-				if a.MatchCall != nil && !a.BoolFalse && a.MatchCall(c, call, env) {
-					return true
-				}
-			}
-			return false
-		},
-		MatchCmp: func(c *Ctx, b *ssa.BinOp, env Env) (bool, bool) {
-			for _, a := range alts {
-				if a.MatchCmp != nil {
-					if m, t := a.MatchCmp(c, b, env); m {
-						return m, t
-					}
-				}
-			}
-			return false, false
-		}}
+	return &GCheck{Name: name, Alts: alts}
 }
 
 // cmpAccept: success is the edge on which `lhs op rhs` holds (e.g. nonce == "" short-circuits to accept).
 func cmpAccept(name string, acceptOp token.Token, lhs, rhs func(string) bool) *GCheck {
 	return cmpReject(name, negOp(acceptOp), lhs, rhs)
+}
+
+// forAllDeep: starting at entry, find the function(s) in its module call tree in which chk has check
+// sites inside a loop; each such loop must satisfy the for-all obligation, and entry's success must
+// require that function's success. Returns the number of loops found.
+func (c *Ctx) forAllDeep(rule, key string, entry *ssa.Function, env Env, chk *GCheck) int {
+	if entry == nil {
+		c.Unresolved(rule, key)
+		return 0
+	}
+	type hit struct {
+		f   *ssa.Function
+		env Env
+	}
+	var hits []hit
+	seen := map[string]bool{}
+	var visit func(f *ssa.Function, env Env, d int)
+	visit = func(f *ssa.Function, env Env, d int) {
+		k := f.String() + "|" + env.key()
+		if d > 5 || seen[k] || f.Blocks == nil || !inModule(f) {
+			return
+		}
+		seen[k] = true
+		ss := c.sites(f, env, chk, 0)
+		inLoop := false
+		for _, l := range naturalLoops(f) {
+			for _, s := range ss {
+				if l.blocks[s.instr.Block()] || l.insideBody(s.instr.Block()) {
+					inLoop = true
+				}
+			}
+		}
+		if inLoop {
+			hits = append(hits, hit{f, env})
+			return
+		}
+		forEachInstr(f, func(in ssa.Instruction) {
+			if cl, ok := in.(*ssa.Call); ok {
+				for _, g := range c.Callees(&cl.Call) {
+					visit(g, c.calleeEnvV(&cl.Call, g, env, cl), d+1)
+				}
+			}
+		})
+	}
+	visit(entry, env, 0)
+	if len(hits) == 0 {
+		c.Check(rule, key, false, entry.Pos(), fmt.Sprintf("no loop in the call tree of %s applies [%s] to each element", short(entry.String()), chk.Name))
+		return 0
+	}
+	n := 0
+	for _, h := range hits {
+		ok, w, nl := c.GuardLoop(h.f, h.env, chk)
+		n += nl
+		c.Check(rule, key+"@"+h.f.Name(), ok, h.f.Pos(), fmt.Sprintf("%s: every element crosses [%s] (loops=%d)", short(h.f.String()), chk.Name, nl), w...)
+		if h.f != entry {
+			hf := h.f
+			req := &GCheck{Name: "call to " + short(hf.String()) + " succeeded", MatchCall: func(c *Ctx, call *ssa.Call, env Env) bool { return call.Call.StaticCallee() == hf }}
+			okR, wR, _ := c.Guard(entry, env, req, nil)
+			c.Check(rule, key+"@"+h.f.Name()+":required", okR, entry.Pos(), fmt.Sprintf("%s succeeds only if %s succeeds", short(entry.String()), short(hf.String())), wR...)
+		}
+	}
+	return n
+}
+
+// ruleU: in every loop of f whose normal exit can lead to an accepting return (for-all loop), no return
+// inside the loop body may be accepting. Existential loops (post-loop return rejecting) are exempt.
+func (c *Ctx) ruleU(rule string, f *ssa.Function) int {
+	n := 0
+	res := f.Signature.Results()
+	if res.Len() == 0 {
+		return 0
+	}
+	last := res.At(res.Len() - 1).Type()
+	if !isErrType(last) && !(res.Len() == 1 && isBoolType(last)) {
+		return 0
+	}
+	for li, l := range naturalLoops(f) {
+		// post-loop: blocks reachable from loop exits (edges leaving the loop from blocks in the loop)
+		post := map[*ssa.BasicBlock]bool{}
+		var stack []*ssa.BasicBlock
+		for b := range l.blocks {
+			for _, s := range b.Succs {
+				if !l.blocks[s] && !l.insideBody(s) {
+					stack = append(stack, s)
+				}
+			}
+		}
+		for len(stack) > 0 {
+			b := stack[len(stack)-1]
+			stack = stack[:len(stack)-1]
+			if post[b] || l.blocks[b] {
+				continue
+			}
+			post[b] = true
+			stack = append(stack, b.Succs...)
+		}
+		forAll := false
+		for b := range post {
+			if r, ok := b.Instrs[len(b.Instrs)-1].(*ssa.Return); ok && maySucceed(r) {
+				forAll = true
+			}
+		}
+		if !forAll {
+			continue
+		}
+		n++
+		okLoop := true
+		var w []string
+		for _, b := range f.Blocks {
+			if !l.insideBody(b) || l.blocks[b] && false {
+				continue
+			}
+			if post[b] {
+				continue
+			}
+			if r, ok := b.Instrs[len(b.Instrs)-1].(*ssa.Return); ok && maySucceed(r) {
+				okLoop = false
+				w = append(w, fmt.Sprintf("accepting return at %s inside the body of the loop at %s: only a prefix of the elements is validated", c.pos(instrPos(r)), c.pos(firstPos(l.header))))
+			}
+		}
+		c.Check(rule, fmt.Sprintf("%s:loop%d", short(f.String()), li), okLoop, firstPos(l.header), fmt.Sprintf("for-all loop in %s rejects-only inside its body", short(f.String())), w...)
+	}
+	return n
+}
+
+// descendSites: call sites in f whose (module) callees all ensure chk.
+func (c *Ctx) descendSites(f *ssa.Function, env Env, chk, _ *GCheck, depth int) []gsite {
+	var out []gsite
+	for _, b := range f.Blocks {
+		for _, in := range b.Instrs {
+			x, ok := in.(*ssa.Call)
+			if !ok {
+				continue
+			}
+			cs := c.Callees(&x.Call)
+			if len(cs) == 0 {
+				continue
+			}
+			all := true
+			for _, g := range cs {
+				if !inModule(g) || g.Blocks == nil {
+					all = false
+					break
+				}
+				if ok, _ := c.ensures(g, c.calleeEnvV(&x.Call, g, env, x), chk, depth+1); !ok {
+					all = false
+					break
+				}
+			}
+			if !all {
+				continue
+			}
+			if ev := errResult(x); ev != nil {
+				out = append(out, gsite{cut: nilTestEdges(ev, true), okVal: ev, instr: x})
+			} else if isBoolType(x.Type()) {
+				out = append(out, gsite{cut: boolEdges(x, true), okVal: x, instr: x})
+			}
+		}
+	}
+	return out
 }
